@@ -180,6 +180,7 @@ def s_widest(report, label, floors=None):
     by_file = {}
     samples = []
     handled = {}
+    ovf_checked = [0]
     for fn in fns:
         n, risky, viol = widest_check(fn)
         if n == 0:
@@ -194,6 +195,18 @@ def s_widest(report, label, floors=None):
         if len(samples) < 3 and risky and not viol and f not in {s["file"] for s in samples}:
             samples.append({"file": f, "fn": fn.short()[:160], "risky_casts": [
                 "%s payload -> %s, %s" % (r["variant"], r["to"], r["handled_by"]) for r in risky]})
+        # S-ovf (error discipline, same consumers): whoever reads the helper's re-expressed bits also reads its
+        # overflow verdict -- otherwise bits truncated to the destination width are taken for the value.  Holds for
+        # every consumer on the pinned tree (no exception list).
+        text = "\n".join(l for b in fn.order for l in fn.blocks[b])
+        for hl in sorted(set(re.findall(r"\((_\d+)\.0: helpers::Widest\)", text))):
+            ovf_checked[0] += 1
+            if not re.search(r"\(%s\.\d+: bool\)" % re.escape(hl), text):
+                nviol += 1
+                report.violation("S-widest:" + label, "S-ovf|%s" % fn.short(),
+                                 "the bits of a ToFixedHelper are used without reading its overflow flag: a right-hand "
+                                 "side / source outside the destination range is then compared or converted by its "
+                                 "truncated bits", {"function": fn.name, "helper_local": hl})
         for r in viol:
             nviol += 1
             key = "S-widest|%s|%s->%s" % (fn.short(), r["variant"], r["to"])
@@ -205,7 +218,7 @@ def s_widest(report, label, floors=None):
     cov = {"engine": "S-widest (textual MIR: every truncation of a Widest payload is sign-checked)",
            "mir_functions": len(fns), "consumer_bodies": consumers, "consumers_by_file": by_file,
            "risky_casts": risky_total, "handled_by": {str(k): v for k, v in handled.items()},
-           "violating_casts": nviol, "samples": samples}
+           "violating_casts": nviol, "helper_uses_checked_for_overflow_read": ovf_checked[0], "samples": samples}
     if floors:
         if consumers < floors.get("consumers", 0) or risky_total < floors.get("risky", 0):
             from .run_a import EngineError
